@@ -60,6 +60,7 @@ var Prop = &engine.Prop{
 		{Name: "codes", Quick: 24, Thorough: 2880, Fn: codesCase},
 		{Name: "nonce", Quick: 300, Thorough: 36000, Fn: nonceCase},
 		{Name: "delivery-failure", Quick: 6000, Thorough: 300000, Fn: deliveryFailCase},
+		{Name: "tight-cache", Quick: 4000, Thorough: 300000, Fn: tightCacheCase},
 	},
 	Floors: map[string]int64{
 		"verify_right_accepted":              500,
@@ -87,6 +88,7 @@ var Prop = &engine.Prop{
 		"codes_alphabet_complete":            8,
 		"nonce_alphabet_complete":            50,
 		"nonce_one_char_alphabet":            2,
+		"tight_verify_judged":                500,
 	},
 }
 
